@@ -262,6 +262,27 @@ class UnitResult:
 
 
 def run_unit(spec: Spec, repo: Repo | None = None, timeout_s=20.0, want_smt2=False) -> UnitResult:
+    """Verify one unit. A Spec may list ``alternatives()`` (other admissible specifications of the same function,
+    e.g. the three classical two-stage Runge-Kutta tableaux): the unit holds if one of them is fully discharged."""
+    first = _run_unit(spec, repo, timeout_s, want_smt2)
+    alts = spec.alternatives() if hasattr(spec, "alternatives") else []
+    if not alts or _clean(first):
+        return first
+    for alt in alts:
+        r = _run_unit(alt, repo, timeout_s, want_smt2)
+        if _clean(r):
+            r.unit = first.unit
+            r.notes.append(f"satisfied by the alternative specification '{alt.unit_name()}' (primary: '{spec.unit_name()}')")
+            return r
+    first.notes.append(f"none of the {len(alts)} alternative specifications holds either")
+    return first
+
+
+def _clean(r) -> bool:
+    return not r.error and not r.unsupported and r.paths > 0 and bool(r.obligations) and all(o.verdict.status == "discharged" for o in r.obligations)
+
+
+def _run_unit(spec: Spec, repo: Repo | None = None, timeout_s=20.0, want_smt2=False) -> UnitResult:
     t0 = time.time()
     repo = repo or Repo()
     res = UnitResult(spec.unit_name(), spec.func)
